@@ -81,10 +81,10 @@ class Run:
         self.violations.append(dict(obligation=obligation, replay=path, reproduced=bool(reproduced)))
 
     # ---------------- kani ----------------
-    def kani_counterexample(self, crate, module, hname, timeout):
+    def kani_counterexample(self, crate, module, hname, timeout, unwind_rules=None):
         """Re-run one failing harness with concrete playback and execute the playback natively."""
         res, logp = kani_unit.run_harnesses(REPO, crate, [hname], timeout_s=timeout, jobs=1, playback=True, tag="pb_" + hname,
-                                            features=self.spec.get("features", {}).get(crate))
+                                            features=self.spec.get("features", {}).get(crate), unwind_rules=unwind_rules)
         hr = res[hname]
         out = dict(harness=hname, crate=crate, kani_log=logp)
         if hr.playback is None:
@@ -110,7 +110,8 @@ class Run:
         names = [h.name for h in hs]
         tmo = max(h.timeout for h in hs)
         res, logp = kani_unit.run_harnesses(REPO, crate, names, timeout_s=tmo, jobs=jobs, tag=self.pid + "_" + st.get("tag", module),
-                                            extra_args=st.get("extra_args", ()), features=self.spec.get("features", {}).get(crate))
+                                            extra_args=st.get("extra_args", ()), features=self.spec.get("features", {}).get(crate),
+                                            unwind_rules=st.get("unwind_rules"))
         self.cmds.append("cargo kani -p %s -Z stubbing -Z function-contracts --harness <h> (from /repo, HUMPHREY_VERIF=/verif); log %s" % (crate, logp))
         self.backends["kani-0.68/cbmc-6.11/cadical"] = self.backends.get("kani-0.68/cbmc-6.11/cadical", 0)
         for h in hs:
@@ -145,7 +146,7 @@ class Run:
                 if known:
                     self.report(obligation, {}, False)
                     continue
-                cex, reproduced = self.kani_counterexample(crate, module, h.name, h.timeout)
+                cex, reproduced = self.kani_counterexample(crate, module, h.name, h.timeout, st.get("unwind_rules"))
                 cex["failed_checks"] = r.failed_checks
                 cex["engine"] = "kani"
                 cex["harness_obligation"] = h.obligation
